@@ -333,7 +333,9 @@ func (p *C17) Check(sc *scen.Scenario, run *orch.Run, env *orch.Env) []orch.Viol
 						if v.ShortTags[n] != given {
 							add("C17.shorttag", "given", "level %d was registered with short tag %q for width %d but ShortTag(%d) = %q", v.Level, given, n, n, v.ShortTags[n])
 						}
-					case c != nil || kind == "builtin":
+					case kind == "builtin" || !c17HasTags(c):
+						// the width rule is stated for levels without custom tags; for a width that a
+						// partly tagged level leaves out nothing is claimed
 						if len([]rune(v.ShortTags[n])) != n {
 							add("C17.shorttag", "width "+kind, "ShortTag(%d) of level %d (%q) is %q: %d characters", n, v.Level, v.String, v.ShortTags[n], len([]rune(v.ShortTags[n])))
 						}
@@ -386,6 +388,18 @@ func (p *C17) Check(sc *scen.Scenario, run *orch.Run, env *orch.Env) []orch.Viol
 		}
 	}
 	return dedupe(out)
+}
+
+func c17HasTags(c *model.Custom) bool {
+	if c == nil {
+		return false
+	}
+	for _, t := range c.Tags {
+		if t != "" {
+			return true
+		}
+	}
+	return false
 }
 
 // c17Diff compares two registry queries on their common basis.
